@@ -495,24 +495,27 @@ class Spec:
         target = dst_field_stack[-1]["field"]
         src_fields = [(f, src_stack + [self.out_loc(src_cls, f)]) for f in src_cls["fields"]]
         params = list(enumerate(self.param_locs()))
+        # linking predicates are evaluated on the field locations as declared: a tag (NotRequired / Annotated) hides the
+        # type from a predicate on the type, and nothing unwraps it here (unlike the coercer request)
+        hd = dst_field_stack[-1].get("tag") is not None
         for prov in self.recipe:
             k = prov["k"]
             if k == "link":
-                if not self.pred(prov["dst"], dst_field_stack):
+                if not self.pred(prov["dst"], dst_field_stack, hd):
                     continue
                 for f, st in src_fields:                      # the fields of the source model ...
-                    if self.pred(prov["src"], st):
+                    if self.pred(prov["src"], st, st[-1].get("tag") is not None):
                         return ("field", f, prov.get("coercer"))
                 for i, loc in reversed(params):               # ... then the extra parameters, right to left
                     if self.pred(prov["src"], [loc]):
                         return ("param", i, prov.get("coercer"))
                 continue
             if k == "link_constant":
-                if self.pred(prov["dst"], dst_field_stack):
+                if self.pred(prov["dst"], dst_field_stack, hd):
                     return ("const", prov)
                 continue
             if k == "link_function":
-                if not self.pred(prov["dst"], dst_field_stack):
+                if not self.pred(prov["dst"], dst_field_stack, hd):
                     continue
                 args = []
                 for idx, p in enumerate(prov["params"]):
@@ -541,7 +544,8 @@ class Spec:
 
     def unlinked_allowed(self, dst_field_stack):
         for prov in self.recipe:
-            if prov["k"] == "policy" and (prov.get("pred") is None or self.pred(prov["pred"], dst_field_stack)):
+            if prov["k"] == "policy" and (prov.get("pred") is None or
+                                          self.pred(prov["pred"], dst_field_stack, dst_field_stack[-1].get("tag") is not None)):
                 return prov["allowed"]
         return False
 
